@@ -175,6 +175,9 @@ func (w *fwalk) val(v reflect.Value, addr bool, depth int, omitempty bool) {
 			if t == Catalogue[1] && !utf8.Valid(v.Bytes()) {
 				w.f["marshaler-invalid-utf8"] = true
 			}
+			if t == Catalogue[1] && looseString(v.Bytes()) {
+				w.f["marshaler-loose-string"] = true
+			}
 			return
 		}
 		for i := 0; i < v.Len(); i++ {
@@ -244,4 +247,43 @@ func (w *fwalk) val(v reflect.Value, addr bool, depth int, omitempty bool) {
 	if t == Catalogue[4] && v.Field(0).Int() == -4 {
 		w.f["marshaler-invalid-utf8"] = true
 	}
+}
+
+// looseString: the text has a string literal with an invalid escape or a raw control character
+// (what the native validator lets through).
+func looseString(b []byte) bool {
+	in := false
+	for i := 0; i < len(b); i++ {
+		c := b[i]
+		switch {
+		case !in:
+			in = c == '"'
+		case c == '"':
+			in = false
+		case c < 0x20:
+			return true
+		case c == '\\':
+			i++
+			if i >= len(b) {
+				return false
+			}
+			switch b[i] {
+			case '"', '\\', '/', 'b', 'f', 'n', 'r', 't':
+			case 'u':
+				for k := 1; k <= 4; k++ {
+					if i+k >= len(b) || !isHex(b[i+k]) {
+						return true
+					}
+				}
+				i += 4
+			default:
+				return true
+			}
+		}
+	}
+	return false
+}
+
+func isHex(c byte) bool {
+	return '0' <= c && c <= '9' || 'a' <= c && c <= 'f' || 'A' <= c && c <= 'F'
 }
